@@ -7,6 +7,7 @@ EXPLANATION = (
     'decision in the main regime is a function of the parameters, the key and the bytes from the chunk start to aligned(max) - so from a common '
     'boundary two streams with a common suffix produce the same chunks until the tail zone. SUF checks that consequence end to end on the real '
     'adapter over the source-built cutter for aligned prefix pairs x segmentations. KEY is a bit-exact sat query (two keys, one buffer, '
+    'different cuts) replayed natively; W.native (shared with C10) checks on the real adapter that the boundaries for a key do not depend on which keys the same adapter instance served before. KEY: (
     'different cuts) replayed natively. L1 (shared with C01) is the padding clause: every file starts at an aligned stream offset whatever fstat reports for the previous file. '
     'NOT claimed: the re-synchronisation distance "with failure probability below 1e-15" is a statement about the distribution of CLMUL maxima '
     'on random data; an SMT solver does not decide probabilities.'
@@ -17,7 +18,7 @@ ASSUMPTIONS = c10.ASSUMPTIONS + ['statistical re-synchronisation bound is outsid
 def obligations(tier):
     base = {o.id: o for o in c10.obligations(tier)}
     l1 = [o for o in c01.obligations(tier) if o.id == 'L1']
-    return [base['TV'], base['N0'], base['N4'], base['N5']] + l1 + [
+    return [base['TV'], base['N0'], base['N4'], base['N5'], base['W.native']] + l1 + [
             Ob('KEY', 'S', 'bit-exact CLMUL: exists buffer and two keys with different cuts (key personalises boundaries); replayed natively',
                '16-byte buffer, min 4 max 12', ['src/adapters.cpp:key'], engine='python', module=IR, func='key_witness', timeout=900, twin=False),
             Ob('SUF', 'E', 'prefix1+S vs prefix2+S: identical boundaries from the first common one up to the tail zone, any segmentation',
